@@ -13,6 +13,7 @@ ASSUMPTIONS = [
     "trace comparison with the Coq model is done for the memory back-end; the sqlite back-end is checked by the linearizability oracle only",
 ]
 IMPORTS = "From V Require Import Model.Bytes Model.Atomic Model.NsAtomic Harness.Cmp Harness.H15."
+POST_RELEASE = False
 NSNAME = "Pyro.NameServer"
 NAMES = ["a", "ab", "abc", "b", "ba", NSNAME, "Pyro.x"]
 
@@ -137,8 +138,13 @@ def run_impl(case, backend="memory"):
         for n, v in case["store"]:
             ns.register(n, uri_of(v), metadata={"m%d" % v})
         ctl = coop.Controller()
+        ctl.post_release = POST_RELEASE or bool(case.get("post_release"))
         ns.storage = StorageProxy(storage, ctl, backend == "memory")
-        ns.lock = coop.CoopRLock(ctl)
+        # the name server's own lock becomes a cooperative one (acquire/release are yield points); when the code
+        # under test installed something that is not a lock at all (e.g. a null context manager), it is left alone
+        # so that the missing exclusion shows in the schedules
+        if hasattr(getattr(ns, "lock", None), "acquire"):
+            ns.lock = coop.CoopRLock(ctl)
         results = [[] for _ in case["progs"]]
         history = []
 
@@ -378,6 +384,13 @@ def family_cases():
         ([["a", 1], ["ab", 2], ["abc", 3]], [[["remove_prefix", "a"]], [["lookup", "abc"], ["lookup", "a"]]]),
         ([["a", 1], ["ab", 2]], [[["remove_prefix", "a"]], [["count"], ["list_all"]]]),
         ([["a", 1]], [[["set_meta", "a"]], [["remove_name", "a"], ["lookup", "a"]]]),
+        # a reader that looks names up in deletion order must never see "first gone, later still there"
+        ([["a", 1], ["ab", 2], ["abc", 3]], [[["remove_prefix", "a"]], [["lookup", "a"], ["lookup", "abc"]]]),
+        ([["a", 1], ["ab", 2]], [[["remove_prefix", "a"]], [["lookup", "a"], ["lookup", "ab"], ["count"]]]),
+        # listings taken before / after a registration that completes while the first listing is in flight
+        ([["a", 1]], [[["list_all"], ["list_all"]], [["register", "n", 2, True]]]),
+        ([["a", 1]], [[["list_all"]], [["register", "n", 2, True], ["list_all"]]]),
+        ([["a", 1], ["b", 2]], [[["list_all"], ["count"]], [["remove_name", "a"], ["list_all"]]]),
         ([["a", 1], ["ab", 2]], [[["remove_prefix", "a"]], [["remove_name", "ab"]], [["register", "ab", 5, True]]]),
     ]
     for store, progs in fams:
@@ -412,7 +425,7 @@ def execute(ctx, cases, model_ok, res, sql_every=7):
             for op in ops:
                 res.count("op:" + op[0])
         for sig, what in oracle(case, obs):
-            res.violations.append({"signature": sig, "what": what, "case": dict(case, backend="memory")})
+            res.violations.append({"signature": sig, "what": what, "case": dict(case, backend="memory", post_release=POST_RELEASE)})
         lits.append(c_case(case, obs))
         kept.append((case, obs))
         if i % sql_every == 0:
@@ -424,7 +437,7 @@ def execute(ctx, cases, model_ok, res, sql_every=7):
                 continue
             res.count("sql_runs")
             for sig, what in oracle(case, sobs):
-                res.violations.append({"signature": "sql:" + sig, "what": what + " (sqlite back-end)", "case": dict(case, backend="sql")})
+                res.violations.append({"signature": "sql:" + sig, "what": what + " (sqlite back-end)", "case": dict(case, backend="sql", post_release=POST_RELEASE)})
     if model_ok:
         for idx in vlib.run_cases(ctx, "c", IMPORTS, "case", "check_case", lits, shard=120):
             case, obs = kept[idx]
@@ -453,6 +466,10 @@ def run(ctx, model_ok=True):
 
 
 def search(ctx, broken):
+    # the tie is broken (no model comparison any more): also preempt right after every lock release, which exposes
+    # code that moved out of a critical section
+    global POST_RELEASE
+    POST_RELEASE = True
     res = vlib.Result()
     cases = [b["case"] for b in broken if b.get("case")] + all_cases(ctx)
     execute(ctx, cases, False, res, sql_every=3)
